@@ -48,6 +48,38 @@ fn stub_get_page(_this: &PageResolver, page_number: PageNumber, _hint: PageHint)
     }
 }
 
+// Sequence-numbered variant: the k-th fetch returns page k (root, first child, second child), so
+// that the page's type byte stays a constant for the solver; that the code really asks for
+// page k at its k-th fetch is ASSERTED (a different order fails the harness, it is not assumed).
+static mut SEQ: usize = 0;
+
+#[cfg(not(debug_assertions))]
+fn stub_get_page_seq(_this: &PageResolver, page_number: PageNumber, _hint: PageHint) -> Result<PageImpl> {
+    unsafe {
+        let k = SEQ;
+        SEQ += 1;
+        assert!(k < 3, "at most three pages are fetched");
+        assert!(
+            page_number.region == 0 && page_number.page_order == 0 && page_number.page_index as usize == k,
+            "the k-th fetch asks for the root, then the children in order"
+        );
+        FETCHED[k] += 1;
+        LAST_FETCHED = k;
+        let arr: Arc<[u8; PG]> = match k {
+            0 => Arc::new(PAGE0),
+            1 => Arc::new(PAGE1),
+            _ => Arc::new(PAGE2),
+        };
+        let mem: Arc<[u8]> = arr;
+        Ok(crate::tree_store::page_store::verif_page_impl(mem, page_number))
+    }
+}
+
+#[cfg(debug_assertions)]
+fn stub_get_page_seq(_this: &PageResolver, _page_number: PageNumber, _hint: PageHint) -> Result<PageImpl> {
+    unreachable!("this harness family runs in the nodebug flavor")
+}
+
 #[cfg(debug_assertions)]
 fn stub_get_page(_this: &PageResolver, _page_number: PageNumber, _hint: PageHint) -> Result<PageImpl> {
     unreachable!("this harness family runs in the nodebug flavor")
@@ -59,6 +91,40 @@ fn no_format(_args: core::fmt::Arguments<'_>) -> alloc::string::String {
 
 fn not_panicking() -> bool {
     false
+}
+
+// the pages' Arcs are leaked instead of freed (deallocation is not what is being verified)
+fn stub_arc_drop_slow<T: ?Sized, A: core::alloc::Allocator>(_this: &mut Arc<T, A>) {}
+
+fn put16(p: &mut [u8; PG], off: usize, v: u128) {
+    let b = v.to_le_bytes();
+    p[off] = b[0];
+    p[off + 1] = b[1];
+    p[off + 2] = b[2];
+    p[off + 3] = b[3];
+    p[off + 4] = b[4];
+    p[off + 5] = b[5];
+    p[off + 6] = b[6];
+    p[off + 7] = b[7];
+    p[off + 8] = b[8];
+    p[off + 9] = b[9];
+    p[off + 10] = b[10];
+    p[off + 11] = b[11];
+    p[off + 12] = b[12];
+    p[off + 13] = b[13];
+    p[off + 14] = b[14];
+    p[off + 15] = b[15];
+}
+
+fn put8(p: &mut [u8; PG], off: usize, b: [u8; 8]) {
+    p[off] = b[0];
+    p[off + 1] = b[1];
+    p[off + 2] = b[2];
+    p[off + 3] = b[3];
+    p[off + 4] = b[4];
+    p[off + 5] = b[5];
+    p[off + 6] = b[6];
+    p[off + 7] = b[7];
 }
 
 fn leaf_ok(i: usize, fk: Option<usize>, fv: Option<usize>) -> bool {
@@ -208,6 +274,86 @@ fn two_level_case(second_type: u8) {
             }
             kani::cover!(v, "whole tree verified");
             kani::cover!(!v && root_ok && l1, "second child rejected");
+        }
+        Err(_) => assert!(false),
+    }
+    core::mem::forget(tree);
+}
+
+// @harness props=C12 tier=thorough timeout=3600 mem=32 stubbing=1 flavor=nodebug replay=scenario:page_alter attempt=1
+// @desc RawBtree::verify_checksum on a two-level tree whose root branch has the documented layout with ARBITRARY stored child checksums and separator and whose two children are well-formed leaves with ARBITRARY computed checksums: it returns Ok(true) if and only if the root's checksum equals the header's AND EVERY child's computed checksum - the last one included - equals the checksum the branch stores for it; whenever the root and the first child verify, the last child is fetched and checked
+// @functions RawBtree::{verify_checksum,verify_checksum_helper}, branch_checksum, leaf_checksum, BranchAccessor::{new,child_page,child_checksum,count_children,key}
+// @bound depth 2, one separator (2 bytes, variable-width keys), two 64-byte one-pair leaves with concrete contents; the three computed checksums, the two stored child checksums and the root checksum in the header arbitrary; profile without debug assertions
+// @stubs PageResolver::get_page -> the k-th fetch returns page k of the harness table and ASSERTS that page k was asked for; xxh3_checksum -> per-page symbolic constant; alloc::fmt::format -> empty; crate::panicking -> false
+#[kani::proof]
+#[kani::unwind(3)]
+#[kani::stub(PageResolver::get_page, stub_get_page_seq)]
+#[kani::stub(crate::tree_store::page_store::xxh3_checksum, stub_checksum)]
+#[kani::stub(alloc::fmt::format, no_format)]
+#[kani::stub(alloc::sync::Arc::drop_slow, stub_arc_drop_slow)]
+#[kani::stub(crate::panicking, not_panicking)]
+fn c12_verify_every_child_checked() {
+    let stored: [u128; 2] = kani::any();
+    let key: [u8; 2] = kani::any();
+    // Pages written byte by byte in the documented layout (docs/design.md; the builders are shown
+    // to emit exactly this layout by c10_branch_build_* / c10_leaf_build_*): straight-line
+    // stores keep every structural byte a constant for the solver
+    let mut root = [0u8; PG];
+    root[0] = BRANCH;
+    root[2] = 1; // one key, two children
+    put16(&mut root, 8, stored[0]);
+    put16(&mut root, 24, stored[1]);
+    put8(&mut root, 40, PageNumber::new(0, 1, 0).to_le_bytes());
+    put8(&mut root, 48, PageNumber::new(0, 2, 0).to_le_bytes());
+    root[56] = 62; // key_end[0]
+    root[60] = key[0];
+    root[61] = key[1];
+    // leaf: type | 0 | num_pairs u16 | key_end u32 | value_end u32 | key | value
+    let mut c1 = [0u8; PG];
+    c1[0] = LEAF;
+    c1[2] = 1;
+    c1[4] = 14;
+    c1[8] = 15;
+    c1[12] = 1;
+    c1[13] = 1;
+    c1[14] = 7;
+    let mut c2 = [0u8; PG];
+    c2[0] = LEAF;
+    c2[2] = 1;
+    c2[4] = 14;
+    c2[8] = 16;
+    c2[12] = 9;
+    c2[13] = 9;
+    c2[14] = 8;
+    c2[15] = 8;
+    unsafe {
+        PAGE0 = root;
+        PAGE1 = c1;
+        PAGE2 = c2;
+        CK = [kani::any(), kani::any(), kani::any()];
+    }
+    let expected: Checksum = kani::any();
+    let mem = Arc::new(crate::tree_store::verif_literal_mem());
+    let tree = RawBtree::new(
+        Some(BtreeHeader::new(PageNumber::new(0, 0, 0), expected, 2)),
+        None,
+        None,
+        PageResolver::new(mem),
+        PageHint::None,
+    );
+    let r = tree.verify_checksum();
+    match r {
+        Ok(v) => {
+            let root_ok = expected == unsafe { CK[0] };
+            let l1 = stored[0] == unsafe { CK[1] };
+            let l2 = stored[1] == unsafe { CK[2] };
+            assert!(v == (root_ok && l1 && l2), "verified iff the root and EVERY child verify against the stored checksums");
+            if root_ok && l1 {
+                assert!(unsafe { FETCHED[2] } >= 1, "the last child is fetched and checked");
+            }
+            kani::cover!(v, "whole tree verified");
+            kani::cover!(!v && root_ok && l1, "damage under the last child rejected");
+            kani::cover!(!v && root_ok && !l1, "damage under the first child rejected");
         }
         Err(_) => assert!(false),
     }
